@@ -583,7 +583,7 @@ def DH(h=1.0):
     CALLING SEQUENCE:
         d = DH(h=1.0)
     """
-    return 2.9979e5 / 100.0 / h
+    return 2.99792458e5 / 100.0 / h
 
 
 def Ez_inverse(z, omega_m, omega_l, omega_k):
